@@ -70,8 +70,15 @@ def run_life(binp, seed, n, only=None):
         return [r for r in rows if r.get("kind") == "life"]
     with ThreadPoolExecutor(4) as ex:
         parts = list(ex.map(shard, range(4)))
-    POOL[:] = [r for p in parts for r in p if r.get("kind") == "poolstop"]
     return [r for p in parts for r in p if r.get("kind") == "life"]
+
+
+def run_pool(binp, seed, rounds):
+    rc, rows, out = lc.run_json([binp, "poolstop", str(seed), str(rounds)], timeout=600)
+    if rc != 0:
+        raise RuntimeError("looph poolstop failed: " + out[-2000:])
+    POOL[:] = [r for r in rows if r.get("kind") == "poolstop"]
+    return list(POOL)
 
 
 POOL = []
@@ -135,12 +142,11 @@ def run(ctx):
             failures.append({"case": {"seed": r["seed"], "id": r["id"], "mode": r["mode"], "jobs": r["jobs"], "ops": r["ops"], "n": n},
                              "why": why, "failing_sequences_in_this_run": len(suspects),
                              "how": "looph life: the listed operations on one scheduler, then quiescence, Stop, Wait, goroutine profile"})
-    pool_rows = list(POOL)
+    pool_rows = run_pool(binp, ctx.seed, 30 if ctx.tier == "quick" else 120)
     for r in [x for x in pool_rows if pool_oracle(x)][:1]:
-        run_life(binp, ctx.seed + 5, n)
-        if any(pool_oracle(x) for x in POOL):
+        if any(pool_oracle(x) for x in run_pool(binp, ctx.seed + 5, 60)):
             failures.append({"case": {"kind": "poolstop", "variant": r["variant"], "limit": r["limit"], "seed": ctx.seed, "n": n}, "why": pool_oracle(r),
-                             "how": "looph life (last shard): WithWorkerLimit(n), n+2 jobs blocked on their context, then Stop or cancel, Wait, goroutine profile"})
+                             "how": "looph poolstop: WithWorkerLimit(n), n+2 jobs blocked on their context, then Stop or cancel, Wait, goroutine profile"})
     nres = 24 if ctx.tier == "quick" else 200
     restart_rows, rf = lc.restart_failures(binp, ctx.seed, nres)
     failures += rf
@@ -191,8 +197,7 @@ def replay(ctx, path):
     c = obj.get("case", {})
     binp = lc.looph()
     if c.get("kind") == "poolstop":
-        run_life(binp, c.get("seed", ctx.seed), c.get("n", 60))
-        bad = [x for x in POOL if pool_oracle(x)]
+        bad = [x for x in run_pool(binp, c.get("seed", ctx.seed), 60) if pool_oracle(x)]
         print(json.dumps({"rounds": len(POOL), "failing": len(bad)}))
         if bad:
             vlib.report_violation(ctx, {"case": c, "why": pool_oracle(bad[0])})
